@@ -77,7 +77,8 @@ fn main() {
         std::process::exit(cx.finish());
     }
 
-    // 0. witnesses of listed findings, regression corpus
+    // 0. structural tie, witnesses of listed findings, regression corpus
+    cx.interface_check();
     cx.known_findings();
     if let Some(dir) = &args.corpus {
         cx.corpus(dir);
